@@ -39,6 +39,37 @@ def make_start(start, model):
     import penman
     from penman.graph import Graph
     kind = start['kind']
+    if kind == 'deep_chain':
+        # n node contexts nested through valid markers (n stays below the 200 levels penman supports)
+        n = int(start['n'])
+        text = ''.join(f'(x{i} / c{i % 3} :ARG{i % 2} ' for i in range(1, n)) + f'(x{n} / leaf)' + ')' * (n - 1)
+        return penman.decode(text, model=model)
+    if kind == 'wide_node':
+        # one node with n branches: nested leaves, references back to them, attributes, and concepts spelled like
+        # variables of the same graph
+        n = int(start['n'])
+        parts = []
+        for i in range(1, n + 1):
+            if i % 4 == 1:
+                parts.append(f':op{i} (l{i} / {"l" + str(i - 4) if i > 4 and i % 8 == 1 else "leaf"})')
+            elif i % 4 == 2:
+                parts.append(f':op{i} l{i - 1}')
+            elif i % 4 == 3:
+                parts.append(f':mod{i} "v{i}"')
+            else:
+                parts.append(f':ARG{i % 3}-of (m{i} / mid :op1 l{i - 3})')
+        text = '(t / ' + ('l1' if start.get('clash') else 'top') + ' ' + ' '.join(parts) + ')'
+        return penman.decode(text, model=model)
+    if kind == 'clash_chain':
+        # a chain whose concepts are spelled like the variable of the previous node, listed backwards, no markers
+        n = int(start['n'])
+        triples = []
+        for i in range(1, n + 1):
+            triples.append((f'v{i}', ':instance', f'v{i - 1}' if i > 1 else 'thing'))
+            if i < n:
+                triples.append((f'v{i}', ':ARG0', f'v{i + 1}'))
+        triples.reverse()
+        return Graph(triples, top='v1')
     if kind == 'decoded':
         text = gtext.fmt_node(start['tree'], start.get('style') or {'nl': False})
         return penman.decode(text, model=model)
